@@ -29,6 +29,7 @@ Cap   == RingLen - 1                  \* "at most 15 are waiting"
 Pos   == 0..(RingLen - 1)
 Base  == 30                           \* pointer value of slot 0 (0x41E - 0x400)
 Blank == <<<<0, 0>>, 0>>              \* content of a slot never written
+CRKey == <<<<13>>, 28>>               \* the Return key
 NBios == 4 + 2 * RingLen              \* the 36 bytes 0x41A..0x43D
 
 Count(h, t) == (t - h + RingLen) % RingLen
@@ -54,7 +55,8 @@ Ring(st) == [slots |-> st.slots, head |-> st.head, tail |-> st.tail]
 RingApply(r, a) ==
     CASE a.op = "press" -> IF Count(r.head, r.tail) < Cap
                            THEN [r EXCEPT !.slots[r.tail] = a.k, !.tail = (@ + 1) % RingLen]
-                           ELSE r
+                           \* GW-BASIC quirk kept by the code: a dropped key leaves a CR in the free slot (outside head..tail)
+                           ELSE [r EXCEPT !.slots[r.tail] = CRKey]
       [] a.op = "inkey" -> IF r.head = r.tail THEN r ELSE [r EXCEPT !.head = (@ + 1) % RingLen]
       [] a.op = "readn" -> [r EXCEPT !.head = (@ + a.n) % RingLen]
       [] a.op = "pokehead" -> [r EXCEPT !.head = a.v]
